@@ -136,7 +136,7 @@ def rule_masks(ctx):
         fq = f'mchap.application.{prog}.program.call_sample_genotypes'
         f = ctx.func(fq)
         arm = [n for n in ast.walk(f.node) if isinstance(n, ast.If) and isinstance(n.test, ast.Name) and isinstance(n.body[-1], ast.Return)
-               and has(n, "data.sampledata[FORMAT.GT][_s] = np.full(_p, -1, dtype=int)")]
+               and has(n, "data.sampledata[FORMAT.GT][_s] = np.full(_p, -1, dtype=np.int64)")]
         ok = len(arm) == 1 and not any(isinstance(x, ast.Raise) for x in ast.walk(arm[0]))
         ok = ok and has(f.node, "data.columndata[COLUMN.FILTER].append(vcf.filters.NOA.id)") and has(f.node, "data.columndata[COLUMN.FILTER].append(vcf.filters.AF0.id)")
         ctx.check(ok, 'R16.4/invalid-scenario', f.construct('invalid_scenario'), "NOA/AF0 appended, missing calls stored, returns (no raise)",
